@@ -56,7 +56,7 @@ func addIntrinsics(P *Program) {
 	reg("Int", intOf(types.Int))
 	reg("Byte", intOf(types.Uint8))
 	reg("Bool", func(i *interpreter, fr *frame, fn *ssa.Function, args []value) value {
-		return symb{i.newVar(goString(args[0], "vsym name"), SBool)}
+		return i.symBool(goString(args[0], "vsym name"))
 	})
 	reg("Bytes", func(i *interpreter, fr *frame, fn *ssa.Function, args []value) value {
 		name := goString(args[0], "vsym name")
@@ -73,13 +73,20 @@ func addIntrinsics(P *Program) {
 		if n <= 0 {
 			panic(pathEnd{"Choose(0)"})
 		}
-		c := i.decide("choose:"+name, n, func(int) *Term { return nil })
 		cnt := i.chooseCnt[name]
 		i.chooseCnt[name] = cnt + 1
 		key := name
 		if cnt > 0 {
 			key = fmt.Sprintf("%s#%d", name, cnt)
 		}
+		if cc := i.w.concrete; cc != nil {
+			c := cc.Chooses[key]
+			if c < 0 || c >= n {
+				c = 0
+			}
+			return c
+		}
+		c := i.decide("choose:"+name, n, func(int) *Term { return nil })
 		i.chooses[key] = c
 		i.trace = append(i.trace, fmt.Sprintf("%s=%d", key, c))
 		return c
@@ -216,6 +223,23 @@ func addIntrinsics(P *Program) {
 
 // fault decides whether the environment fails at site (a fork, bounded by the fault budget).
 func (i *interpreter) fault(site string) bool {
+	if cc := i.w.concrete; cc != nil {
+		if i.faults == nil {
+			i.faults = map[string]int{}
+		}
+		n := i.faults[site]
+		i.faults[site] = n + 1
+		key := site
+		if n > 0 {
+			key = fmt.Sprintf("%s#%d", site, n)
+		}
+		for _, f := range cc.Faults {
+			if f == key {
+				return true
+			}
+		}
+		return false
+	}
 	if !i.faultsOn || i.faultsUsed >= i.faultBudget {
 		return false
 	}
